@@ -111,6 +111,8 @@ def nearbare():
         # path and URL shapes: '.', '/' and '-' are identifier characters for the lexer, '//' starts a comment
         st.sampled_from(["//cdn.example.com/lib.js", "//server/share", "//", "/", "/usr/bin", "./x", "../up", "a//b",
                          "docs/guide.md", "a/b", "/-", "http://x.y/z", "x//", ".hidden", "a/true", "-/"]),
+        # text ending in a backslash (its closing quote follows an escaped backslash) and template placeholders NAME{slot}
+        st.sampled_from(["C:\\templates\\", "dir\\NAME{x}\\", "\\", "a\\\\", "NAME{slot}", "x{y}\\", "\\ K{v}", "see TPL{id} \\"]),
     )
     edit = st.tuples(st.integers(0, 40), st.sampled_from(list("-.,<>_:$§→∧ ") + ["", "", "<>", "::", ",,"]), st.booleans())
 
